@@ -314,6 +314,7 @@ def ctrlCmdHandler (req : List Str) : Except Exc (Option Patch × Option Int) :=
     pure (some (.drop num period), some 0)
   else if verifyCmd req "FAKE_TRXC_DELAY" 1 then do
     let d ← toInt (← arg req 1)
+    if d < 0 ∨ d > Gen.World.trxcDelayMaxMs then pure (none, some (-1)) else
     pure (some (.delay d), none)
   else pure (none, none)
 
